@@ -404,6 +404,9 @@ func TestConnectionHistory(t *testing.T) {
 		if rapid.Bool().Draw(t, "hasKG") {
 			w.BMC.KG = rapid.SliceOfN(rapid.Byte(), 20, 20).Draw(t, "kg")
 		}
+		// what the BMC puts in its own RMCP / session-less headers is its business
+		w.BMC.RMCPSeq = byte(rapid.SampledFrom([]int{0, 0, 0, 0x2a, 0xfe}).Draw(t, "bmcRMCPSequence"))
+		w.BMC.NumberPlain = rapid.IntRange(0, 3).Draw(t, "bmcNumbersPlain") == 0
 		type live struct {
 			s  *bmc.V2Session
 			bs *simbmc.Session
@@ -417,7 +420,7 @@ func TestConnectionHistory(t *testing.T) {
 			// send the request again; every transmission is checked
 			var script []hx.Outcome
 			for i := rapid.IntRange(0, 3).Draw(t, "retries"); i > 0; i-- {
-				script = append(script, rapid.SampledFrom([]hx.Outcome{hx.Busy, hx.TimeoutCC, hx.Garbage, hx.StrayOK, hx.StrayBusy, hx.BadSig}).Draw(t, "outcome"))
+				script = append(script, rapid.SampledFrom([]hx.Outcome{hx.Busy, hx.TimeoutCC, hx.Garbage, hx.StrayOK, hx.StrayBusy, hx.BadSig, hx.StraySetup, hx.StrayASF}).Draw(t, "outcome"))
 			}
 			script = append(script, hx.Final)
 			sc.Script, sc.Pos = script, 0
